@@ -2,14 +2,15 @@ module whawty-verif/harness
 
 go 1.23.0
 
-require github.com/whawty/auth v0.0.0
-
-replace github.com/whawty/auth => /repo
-
-require golang.org/x/crypto v0.37.0
+require (
+	github.com/whawty/auth v0.0.0
+	golang.org/x/crypto v0.37.0
+	gopkg.in/yaml.v3 v3.0.1
+)
 
 require (
 	golang.org/x/sys v0.32.0 // indirect
 	gopkg.in/spreadspace/scryptauth.v2 v2.0.0-20160119001838-d2c0fcba7783 // indirect
-	gopkg.in/yaml.v3 v3.0.1 // indirect
 )
+
+replace github.com/whawty/auth => /repo
